@@ -1,6 +1,7 @@
 import Kdf.Model.Oom
 import Kdf.Lemmas.Oom
 import Kdf.Lemmas.OomProg
+import Kdf.Lemmas.OomSlot
 /-!
 # C18 — running out of memory is an error, not an accident
 
@@ -123,5 +124,283 @@ example : (kdumpClone { xlatNullCheck := false } true 0 5 (St.init 6)).2.bad = t
 example : (kdumpClone { cloneUnlock := false } false 2 0 (St.init 4)).2.rd = 1 := by decide
 /-- before `fix: kdump_clone() error exits leaked …`: two blocks of the translation context stay -/
 example : (kdumpClone { cloneUnwind := false } true 0 5 (St.init 4)).2.live = [3, 2] := by decide
+
+/-! ### per-context slots, the LKCD page-size change, the page map built on first use -/
+
+/-- ledger well-formed: block ids are distinct and were all handed out before -/
+def Wf (s : St) : Prop := s.live.Nodup ∧ ∀ i ∈ s.live, i ≤ s.cnt
+
+/-- the buffers the object names are live, distinct blocks (nothing dangles, nothing is named twice) -/
+def Owned (o : PgObj) (s : St) : Prop :=
+  (o.bufs ++ o.cache).Nodup ∧ ∀ b ∈ o.bufs ++ o.cache, b ∈ s.live
+
+/-- `per_ctx_alloc` / `cache_alloc`: when one of the `k` allocations fails, NULL (or -1) is returned and
+everything obtained so far has been given back. -/
+theorem allocAll_fail (k : Nat) (s : St) :
+    (allocAll k s).1 = none → Restored s (allocAll k s).2 ∧ (allocAll k s).2.mtx = s.mtx ∧ Hits s k := by
+  intro h
+  rcases allocAll_cases k s with ⟨s', hc⟩ | ⟨got, s', hc⟩
+  · obtain ⟨a1, a2, _, a4⟩ := allocAll_none hc
+    rw [hc]
+    exact ⟨⟨a1, a2.rd, a2.wr, a2.bad, a2.sh, a2.di, a2.xr⟩, a2.mtx, a4⟩
+  · rw [hc] at h; cases h
+
+theorem allocAll_ok (k : Nat) (s : St) (got : List Nat) :
+    (allocAll k s).1 = some got →
+      got.length = k ∧ (allocAll k s).2.live = got ++ s.live ∧ (∀ i ∈ got, s.cnt < i) ∧ ¬ Hits s k ∧
+      (allocAll k s).2.cnt = s.cnt + k ∧ (allocAll k s).2.bad = s.bad ∧
+      (allocAll k s).2.rd = s.rd ∧ (allocAll k s).2.wr = s.wr ∧ (allocAll k s).2.mtx = s.mtx := by
+  intro h
+  rcases allocAll_cases k s with ⟨s', hc⟩ | ⟨got', s', hc⟩
+  · rw [hc] at h; cases h
+  · rw [hc] at h; cases h
+    obtain ⟨a1, a2, a3, a4, a5, a6, a7⟩ := allocAll_some hc
+    rw [hc]
+    exact ⟨a4, a1, fun i hi => (a5 i hi).1, a7, a3, a2.bad, a2.rd, a2.wr, a2.mtx⟩
+
+/-- `lkcd_realloc_compressed`: when the new slot cannot be allocated the object is left exactly as it
+was — same slot, same buffers, all of them still allocated. -/
+theorem pgRound_slot_fail (c m : Nat) (o : PgObj) (s : St) (h : Hits s c) :
+    (pgRound {} c m o s).1 = false ∧ (pgRound {} c m o s).2.1 = o ∧ Restored s (pgRound {} c m o s).2.2 := by
+  rcases allocAll_cases c s with ⟨s1, hc⟩ | ⟨nw, s1, hc⟩
+  · obtain ⟨a1, a2, _, _⟩ := allocAll_none hc
+    rw [pgRound_eq1 hc]
+    exact ⟨rfl, rfl, ⟨a1, a2.rd, a2.wr, a2.bad, a2.sh, a2.di, a2.xr⟩⟩
+  · exact absurd h (allocAll_some hc).2.2.2.2.2.2
+
+/-- One run of the hook chain, whatever fails: the object names live, distinct blocks afterwards,
+nothing undefined happened, no lock changed hands, and the number of live blocks that the object does
+not name is what it was (nothing leaked, nothing else freed). -/
+theorem pgRound_safe (c m : Nat) (o : PgObj) (s : St) (hw : Wf s) (ho : Owned o s) :
+    Wf (pgRound {} c m o s).2.2 ∧ Owned (pgRound {} c m o s).2.1 (pgRound {} c m o s).2.2 ∧
+    (pgRound {} c m o s).2.2.bad = s.bad ∧ (pgRound {} c m o s).2.2.rd = s.rd ∧
+    (pgRound {} c m o s).2.2.wr = s.wr ∧ (pgRound {} c m o s).2.2.mtx = s.mtx ∧
+    (pgRound {} c m o s).2.2.failAt = s.failAt ∧
+    (pgRound {} c m o s).2.2.live.length + (o.bufs.length + o.cache.length) =
+      s.live.length + ((pgRound {} c m o s).2.1.bufs.length + (pgRound {} c m o s).2.1.cache.length) ∧
+    ((pgRound {} c m o s).1 = true →
+      (pgRound {} c m o s).2.1.bufs.length = c ∧ (pgRound {} c m o s).2.1.cache.length = m ∧
+      (pgRound {} c m o s).2.2.cnt = s.cnt + (c + m) ∧ ¬ Hits s (c + m)) ∧
+    ((pgRound {} c m o s).1 = false → Hits s (c + m)) := by
+  obtain ⟨hb, hcN, hd⟩ := List.nodup_append.mp ho.1
+  have hbm : ∀ b ∈ o.bufs, b ∈ s.live := fun b hb => ho.2 b (List.mem_append_left _ hb)
+  have hcm : ∀ b ∈ o.cache, b ∈ s.live := fun b hb => ho.2 b (List.mem_append_right _ hb)
+  rcases allocAll_cases c s with ⟨s1, hc⟩ | ⟨nw, s1, hc⟩
+  · -- the slot allocation fails
+    obtain ⟨a1, a2, a3, a4⟩ := allocAll_none hc
+    have hw1 : WfL s1 := WfL.allocAll_none hw hc
+    rw [pgRound_eq1 hc]
+    refine ⟨hw1, ⟨ho.1, ?_⟩, a2.bad, a2.rd, a2.wr, a2.mtx, a2.fa, ?_, ?_, ?_⟩
+    · intro b hb; show b ∈ s1.live; rw [a1]; exact ho.2 b hb
+    · show s1.live.length + _ = _; rw [a1]
+    · intro h; cases h
+    · intro _; unfold Hits; omega
+  · obtain ⟨b1, b2, b3, b4, b5, b6, b7⟩ := allocAll_some hc
+    have hw1 : WfL s1 := WfL.allocAll_some hw hc
+    have hbm1 : ∀ b ∈ o.bufs, b ∈ s1.live := by
+      intro b hb; rw [b1]; exact List.mem_append_right _ (hbm b hb)
+    obtain ⟨c1, c2, c3, c4, c5⟩ := freeAll_sub o.bufs s1 hw1.1 hb hbm1
+    have hw2 : WfL (freeAll o.bufs s1) := WfL.freeAll hw1 hb hbm1
+    have hnw2 : ∀ i ∈ nw, i ∈ (freeAll o.bufs s1).live := by
+      intro i hi
+      rw [c2, b1]
+      refine ⟨List.mem_append_left _ hi, ?_⟩
+      intro hib
+      have := hw.2 i (hbm i hib); have := (b5 i hi).1; omega
+    have hca2 : ∀ i ∈ o.cache, i ∈ (freeAll o.bufs s1).live := by
+      intro i hi
+      rw [c2, b1]
+      exact ⟨List.mem_append_right _ (hcm i hi), fun hib => hd i hib i hi rfl⟩
+    have hnwc : ∀ a ∈ nw, ∀ b ∈ o.cache, a ≠ b := by
+      intro a ha b hb e
+      have := hw.2 b (hcm b hb); have := (b5 a ha).1; omega
+    have hlen1 : s1.live.length = c + s.live.length := by rw [b1, List.length_append, b4]
+    rcases allocAll_cases m (freeAll o.bufs s1) with ⟨s3, hc2⟩ | ⟨nc, s3, hc2⟩
+    · -- the cache allocation fails
+      obtain ⟨d1, d2, d3, d4⟩ := allocAll_none hc2
+      have hw3 : WfL s3 := WfL.allocAll_none hw2 hc2
+      have fr := (b2.trans c5).trans d2
+      rw [pgRound_eq2 hc hc2]
+      refine ⟨hw3, ⟨?_, ?_⟩, fr.bad, fr.rd, fr.wr, fr.mtx, fr.fa, ?_, ?_, ?_⟩
+      · show (nw ++ o.cache).Nodup
+        exact List.nodup_append.mpr ⟨b6, hcN, hnwc⟩
+      · intro b hb
+        show b ∈ s3.live
+        rw [d1]
+        change b ∈ nw ++ o.cache at hb
+        rcases List.mem_append.mp hb with hb | hb
+        · exact hnw2 b hb
+        · exact hca2 b hb
+      · show s3.live.length + _ = s.live.length + (nw.length + o.cache.length)
+        rw [d1]; omega
+      · intro h; cases h
+      · intro _
+        have := b2.fa; have := c5.fa
+        unfold Hits; omega
+    · -- both groups allocated
+      obtain ⟨e1, e2, e3, e4, e5, e6, e7⟩ := allocAll_some hc2
+      have hw3 : WfL s3 := WfL.allocAll_some hw2 hc2
+      have hcm3 : ∀ b ∈ o.cache, b ∈ s3.live := by
+        intro b hb; rw [e1]; exact List.mem_append_right _ (hca2 b hb)
+      obtain ⟨f1, f2, f3, f4, f5⟩ := freeAll_sub o.cache s3 hw3.1 hcN hcm3
+      have hw4 : WfL (freeAll o.cache s3) := WfL.freeAll hw3 hcN hcm3
+      have fr := ((b2.trans c5).trans e2).trans f5
+      rw [pgRound_eq3 hc hc2]
+      refine ⟨hw4, ⟨?_, ?_⟩, fr.bad, fr.rd, fr.wr, fr.mtx, fr.fa, ?_, ?_, ?_⟩
+      · show (nw ++ nc).Nodup
+        refine List.nodup_append.mpr ⟨b6, e6, ?_⟩
+        intro a ha b hb e
+        have := (b5 a ha).2; have := (e5 b hb).1; omega
+      · intro b hb
+        show b ∈ (freeAll o.cache s3).live
+        change b ∈ nw ++ nc at hb
+        rw [f2, e1]
+        rcases List.mem_append.mp hb with hb | hb
+        · exact ⟨List.mem_append_right _ (hnw2 b hb), fun hbc => hnwc b hb b hbc rfl⟩
+        · refine ⟨List.mem_append_left _ hb, ?_⟩
+          intro hbc
+          have := hw.2 b (hcm b hbc); have := (e5 b hb).1; omega
+      · show (freeAll o.cache s3).live.length + _ = s.live.length + (nw.length + nc.length)
+        have : s3.live.length = m + (freeAll o.bufs s1).live.length := by
+          rw [e1, List.length_append, e4]
+        omega
+      · intro _
+        have := b2.fa; have := c5.fa
+        refine ⟨b4, e4, ?_, ?_⟩
+        · show (freeAll o.cache s3).cnt = _; omega
+        · unfold Hits; omega
+      · intro h; cases h
+
+/-- `kdump_set_attr("arch.page_size")` on an open LKCD dump with `c` contexts, over all fault points. -/
+theorem setPageSize_safe (c m : Nat) (o : PgObj) (s : St) (hl : s.rd = 0 ∧ s.wr = 0) (hw : Wf s) (ho : Owned o s) :
+    Wf (setPageSize {} c m o s).2.2 ∧ Owned (setPageSize {} c m o s).2.1 (setPageSize {} c m o s).2.2 ∧
+    (setPageSize {} c m o s).2.2.bad = s.bad ∧ (setPageSize {} c m o s).2.2.rd = 0 ∧
+    (setPageSize {} c m o s).2.2.wr = 0 ∧ (setPageSize {} c m o s).2.2.mtx = s.mtx ∧
+    (setPageSize {} c m o s).2.2.live.length + (o.bufs.length + o.cache.length) =
+      s.live.length + ((setPageSize {} c m o s).2.1.bufs.length + (setPageSize {} c m o s).2.1.cache.length) ∧
+    ((setPageSize {} c m o s).1 = true →
+      (setPageSize {} c m o s).2.1.bufs.length = c ∧ (setPageSize {} c m o s).2.1.cache.length = m ∧
+      ¬ Hits s (setPageSizeTotal c m)) ∧
+    ((setPageSize {} c m o s).1 = false → Hits s (setPageSizeTotal c m)) := by
+  obtain ⟨w1, w2, w3, w4, w5, w6, w7⟩ := wrlock_free hl.1 hl.2
+  have hw0 : Wf (wrlock s) := by
+    refine ⟨by rw [w3]; exact hw.1, ?_⟩
+    intro i hi; rw [w3] at hi; rw [w6]; exact hw.2 i hi
+  have ho0 : Owned o (wrlock s) := ⟨ho.1, fun b hb => by rw [w3]; exact ho.2 b hb⟩
+  have p1 := pgRound_safe c m o (wrlock s) hw0 ho0
+  rcases h1 : pgRound {} c m o (wrlock s) with ⟨b1, o1, s1⟩
+  rw [h1] at p1
+  obtain ⟨q1, q2, q3, q4, q5, q6, q7, q8, q9, q10⟩ := p1
+  dsimp only at q1 q2 q3 q4 q5 q6 q7 q8 q9 q10
+  cases b1
+  · -- first run fails
+    obtain ⟨u1, u2, u3, u4, u5, u6, u7⟩ := unlock_wr1 (q5.trans w1)
+    rw [setPageSize_eq1 h1]
+    refine ⟨?_, ⟨q2.1, ?_⟩, ?_, ?_, u1, ?_, ?_, ?_, ?_⟩
+    · refine ⟨by show (unlock s1).live.Nodup; rw [u3]; exact q1.1, ?_⟩
+      intro i hi
+      show i ≤ (unlock s1).cnt
+      rw [u6]; exact q1.2 i (by rw [← u3]; exact hi)
+    · intro b hb; show b ∈ (unlock s1).live; rw [u3]; exact q2.2 b hb
+    · show (unlock s1).bad = s.bad; rw [u4, q3, w4]
+    · show (unlock s1).rd = 0; rw [u2, q4, w2]
+    · show (unlock s1).mtx = s.mtx; rw [u5, q6, w5]
+    · show (unlock s1).live.length + _ = s.live.length + (o1.bufs.length + o1.cache.length)
+      rw [u3, ← w3]; exact q8
+    · intro h; cases h
+    · intro _
+      have := q10 rfl
+      unfold Hits at this ⊢
+      unfold setPageSizeTotal
+      omega
+  · -- second run
+    obtain ⟨r1, r2, r3, r4⟩ := q9 rfl
+    have p2 := pgRound_safe c m o1 s1 q1 q2
+    rcases h2 : pgRound {} c m o1 s1 with ⟨b2, o2, s2⟩
+    rw [h2] at p2
+    obtain ⟨t1, t2, t3, t4, t5, t6, t7, t8, t9, t10⟩ := p2
+    dsimp only at t1 t2 t3 t4 t5 t6 t7 t8 t9 t10
+    obtain ⟨u1, u2, u3, u4, u5, u6, u7⟩ := unlock_wr1 ((t5.trans q5).trans w1)
+    rw [setPageSize_eq2 h1 h2]
+    refine ⟨?_, ⟨t2.1, ?_⟩, ?_, ?_, u1, ?_, ?_, ?_, ?_⟩
+    · refine ⟨by show (unlock s2).live.Nodup; rw [u3]; exact t1.1, ?_⟩
+      intro i hi
+      show i ≤ (unlock s2).cnt
+      rw [u6]; exact t1.2 i (by rw [← u3]; exact hi)
+    · intro b hb; show b ∈ (unlock s2).live; rw [u3]; exact t2.2 b hb
+    · show (unlock s2).bad = s.bad; rw [u4, t3, q3, w4]
+    · show (unlock s2).rd = 0; rw [u2, t4, q4, w2]
+    · show (unlock s2).mtx = s.mtx; rw [u5, t6, q6, w5]
+    · show (unlock s2).live.length + _ = s.live.length + (o2.bufs.length + o2.cache.length)
+      rw [u3, ← w3]; omega
+    · intro hb
+      have hb' : b2 = true := hb
+      obtain ⟨v1, v2, v3, v4⟩ := t9 hb'
+      refine ⟨v1, v2, ?_⟩
+      unfold Hits at r4 v4 ⊢
+      unfold setPageSizeTotal
+      omega
+    · intro hb
+      have hb' : b2 = false := hb
+      have := t10 hb'
+      unfold Hits at r4 this ⊢
+      unfold setPageSizeTotal
+      omega
+
+/-- `kdump_get_attr("memory.pagemap")` while the map has still to be built: whatever fails, neither
+the shared lock nor `cache_lock` is held at return; the call fails exactly when one of its `g`
+allocations does; at most the region array itself (kept by the format data) is new in the ledger. -/
+theorem pagemapGet_safe (g : Nat) (s : St) (hl : s.rd = 0 ∧ s.wr = 0 ∧ s.mtx = 0) :
+    (pagemapGet {} g s).2.rd = 0 ∧ (pagemapGet {} g s).2.wr = 0 ∧ (pagemapGet {} g s).2.mtx = 0 ∧
+    (pagemapGet {} g s).2.bad = s.bad ∧
+    ((pagemapGet {} g s).1 = false ↔ Hits s g) ∧
+    ((pagemapGet {} g s).2.live = s.live ∨ (pagemapGet {} g s).2.live = (s.cnt + 1) :: s.live) := by
+  obtain ⟨n1, n2, n3, n4, n5, n6, n7⟩ := enter_spec hl.1 hl.2.1 hl.2.2
+  cases g with
+  | zero =>
+    obtain ⟨x1, x2, x3, x4, x5⟩ := exit_spec n1 n2 n3
+    rw [pagemapGet_zero]
+    refine ⟨x1, x2, x3, x5.trans n5, ?_, Or.inl (x4.trans n4)⟩
+    unfold Hits
+    constructor
+    · intro h; cases h
+    · intro h; omega
+  | succ g =>
+    rcases ha : alloc (mlock (rdlock s)) with ⟨_ | i, s1⟩
+    · obtain ⟨a1, a2, a3, a4⟩ := alloc_none2 ha
+      obtain ⟨x1, x2, x3, x4, x5⟩ := exit_spec (a4.rd.trans n1) (a4.wr.trans n2) (a4.mtx.trans n3)
+      rw [pagemapGet_eq1 ha]
+      refine ⟨x1, x2, x3, (x5.trans a4.bad).trans n5, ?_, Or.inl ((x4.trans a3).trans n4)⟩
+      unfold Hits
+      constructor
+      · intro _; omega
+      · intro _; rfl
+    · obtain ⟨a1, a2, a3, a4, a5⟩ := alloc_some2 ha
+      obtain ⟨g1, g2, g3, g4⟩ := regrowN_spec g s1
+      rcases hr : regrowN g s1 with ⟨b, s2⟩
+      rw [hr] at g1 g2 g3 g4
+      dsimp only at g1 g2 g3 g4
+      have fr := a5.trans g2
+      obtain ⟨x1, x2, x3, x4, x5⟩ := exit_spec (fr.rd.trans n1) (fr.wr.trans n2) (fr.mtx.trans n3)
+      rw [pagemapGet_eq2 ha hr]
+      refine ⟨x1, x2, x3, (x5.trans fr.bad).trans n5, ?_, Or.inr ?_⟩
+      · show b = false ↔ _
+        rw [g4]
+        have := a5.fa
+        unfold Hits
+        omega
+      · show (unlock (munlock s2)).live = _
+        rw [x4, g1, a4, a2, n4, n6]
+
+/-- concrete runs: 3 contexts, a 2-block cache, the old slot buffers 1,2,3 and the old cache 4,5 -/
+example : (setPageSize {} 3 2 { cbuf := some [3, 2, 1], cache := [5, 4] } { cnt := 5, live := [5, 4, 3, 2, 1], failAt := 5 + 8 }).1 = false ∧
+    (setPageSize {} 3 2 { cbuf := some [3, 2, 1], cache := [5, 4] } { cnt := 5, live := [5, 4, 3, 2, 1], failAt := 5 + 8 }).2.2.live = [10, 9, 8, 7, 6] := by decide
+example : (setPageSize {} 3 2 { cbuf := some [3, 2, 1], cache := [5, 4] } { cnt := 5, live := [5, 4, 3, 2, 1], failAt := 0 }).1 = true := by decide
+/-- the old slot released before the new one is allocated (`slotFirst := false`): failing the 2nd
+allocation leaves the object naming the freed buffers 1,2,3 -/
+example : (setPageSize { slotFirst := false } 3 2 { cbuf := some [3, 2, 1], cache := [5, 4] } { cnt := 5, live := [5, 4, 3, 2, 1], failAt := 5 + 2 }).2.1.cbuf = some [3, 2, 1] ∧
+    (setPageSize { slotFirst := false } 3 2 { cbuf := some [3, 2, 1], cache := [5, 4] } { cnt := 5, live := [5, 4, 3, 2, 1], failAt := 5 + 2 }).2.2.live = [5, 4] := by decide
+/-- an error exit of `mem_pagemap_revalidate` that skips the unlock: `cache_lock` stays held -/
+example : (pagemapGet { unlockOnError := false } 1 (St.init 1)).2.mtx = 1 ∧ (pagemapGet {} 1 (St.init 1)).2.mtx = 0 := by decide
 
 end Kdf.Props.C18
